@@ -3,3 +3,4 @@ import contracts.scope_text  # noqa
 
 INFO = {'not_decided': ['non-ASCII lines', 'which occurrence is the binding one when the identifier occurs twice in the statement'],
         'stated_lemmas': [], 'trusted': []}
+import props._all  # noqa
